@@ -24,8 +24,10 @@ PROPS["C11"] = {
              "with up to 20 000 new keys after each: the resident count may never exceed the largest size ever configured for that cache name. "
              "TestC11Sim (engine S, through the server's cache middleware): sizes 1..24, with and without a store (mem / lazy), 6-40 keys with URIs of many lengths spread over 8 shards, 20-160 operations; after every operation "
              "each cache holds exactly the keys the history accounts for (requested and neither dropped nor purged since), never more than S, the index of every shard holds as many keys as its recency list, and every reported removal names a resident key. "
-             "Non-trivial there = an eviction happened and some shard was filled to its limit."),
+             "Non-trivial there = an eviction happened and some shard was filled to its limit. "
+             "TestC11Retained: S in {1..100}, S+40..S+800 distinct keys fetched and stored like the cache middleware does (lifetimes 30 s..1 day, bodies 10..5000 bytes, with or without a store, some fetches uncacheable, some keys purged), a finalizer on every stored response; after the history and repeated garbage collections at most S+4 responses may still be reachable. Non-trivial = more keys than S (always)."),
     "assumptions": [
+        "TestC11Retained observes reachability through finalizers: it waits for up to 6 s of repeated runtime.GC and tolerates 4 objects beyond S (stale stack slots); a retention that ends within the run (short timers) is invisible to it",
         "TestC11Sim counts the keys of the recency list (VerifLen) and of the index map (VerifIndexLen, reflection on groupcache's unexported map) of every shard",
         "resident keys are counted through the verif hook VerifLen (groupcache lru Len per shard) and removals through the library's OnEvicted callback",
         "keys are produced like server.getKey does (a fresh byte slice per call)",
@@ -33,6 +35,7 @@ PROPS["C11"] = {
     "jobs": [
         {"engine": "unit", "test": "TestC11AllSizes", "rapid": False, "quick": {"shards": 1, "timeout": 300}, "thorough": {"shards": 1, "timeout": 1200}},
         {"engine": "unit", "test": "TestC11Reload", "quick": {"shards": 4, "checks": 150, "timeout": 300}, "thorough": {"shards": 16, "checks": 3000, "timeout": 3000}},
+        {"engine": "unit", "test": "TestC11Retained", "quick": {"shards": 4, "checks": 12, "timeout": 400, "shrinktime": "10s"}, "thorough": {"shards": 16, "checks": 300, "timeout": 3400, "shrinktime": "30s"}},
         {"engine": "unit", "test": "TestC11Random", "quick": {"shards": 8, "checks": 1500, "timeout": 300}, "thorough": {"shards": 16, "checks": 20000, "timeout": 3000}},
         {"engine": "sim", "test": "TestC11Sim", "quick": {"shards": 8, "checks": 250, "timeout": 400, "shrinktime": "15s"}, "thorough": {"shards": 16, "checks": 15000, "timeout": 3400, "shrinktime": "60s"}},
     ],
@@ -108,8 +111,8 @@ PROPS["C07"] = {
     "rule": ("Scenario = hit-for-pass D in {unset,-5,1,2,5,60,300}s, histories alternating cacheable/uncacheable/failed answers, bursts during the period left pending together, advances around D, D+-1s. "
              "Oracle = during elapsed < D every request has its own upstream request pending at the next quiescent point (never queued, never a hit); at elapsed >= D+1 exactly one probes and the others wait. "
              "Non-trivial = >=2 passes and >=1 probe after the period. "
-             "TestC07Burst (engine N, pike's real upstream transport): 1-3 keys made hit-for-pass (or POST requests), then a burst of 40/64/96/130 concurrent requests against an origin that answers each request only once the whole burst is inside its handler (or 5 s have passed): the largest number of requests inside the origin at the same time must equal the burst size. Every case is non-trivial."),
-    "assumptions": _SIM_ASSUME + ["TestC07Burst: a burst of up to 130 loopback requests reaches the origin within the 5 s the origin waits for it"],
+             "TestC07Burst (engine N, pike's real upstream transport): 1-3 keys made hit-for-pass (or POST requests), then a burst of 40/64/96/130 concurrent requests against an origin that answers each request only once the whole burst is inside its handler (or 10 s have passed): the largest number of requests inside the origin at the same time must equal the burst size. Every case is non-trivial."),
+    "assumptions": _SIM_ASSUME + ["TestC07Burst: a burst of up to 130 loopback requests reaches the origin within the 10 s the origin waits for it"],
     "jobs": [_sim("TestC07", 1500, 40000), _sim("TestC07Store", 400, 15000, qshards=8),
              {"engine": "netw", "test": "TestC07Burst", "quick": {"shards": 2, "checks": 6, "timeout": 400, "shrinktime": "10s"}, "thorough": {"shards": 8, "checks": 60, "timeout": 3400, "shrinktime": "30s"}}],
 }
@@ -119,12 +122,14 @@ PROPS["C10"] = {
              "Oracle = the C01/C04 automaton with the store invisible (a bad or missing record is a miss; permissive only where a record may legitimately survive). "
              "Non-trivial = >=1 injected fault actually consumed by a store call, with a waiter or >=3 requests. "
              "TestC10StoreOpen (engine N): the cache is configured with one of pike's real back ends in a state in which it cannot work (badger directory that cannot be created / is a regular file / is locked by another cache under another spelling, redis nobody listens on); 3-8 requests on cacheable and uncacheable keys must all be answered 200 with the upstream's body and memory hits keep working. "
-             "TestC10SlowStore (engine N): a store whose calls take 20-80 ms; a hit or hit-for-pass record that left the one-entry memory is looked up by the first of 2-5 staggered concurrent requests: all of them must be answered."),
+             "TestC10SlowStore (engine N): a store whose calls take 20-80 ms; a hit or hit-for-pass record that left the one-entry memory is looked up by the first of 2-5 staggered concurrent requests: all of them must be answered. "
+             "TestC10Admin (engine N): the admin purge histories of TestC18Admin, always on stores whose delete (15 ms) or write (40 ms) is slow, incl. purges while clients keep asking: a slow store call must not make pike answer with what was purged."),
     "assumptions": _SIM_ASSUME + ["store delays are not simulated in the bubble (a goroutine sleeping inside a pike lock would wedge it)",
                                   "records with a corrupted status field or random garbage make the key's model permissive: only completion and response correctness are demanded"],
     "jobs": [_sim("TestC10", 1500, 40000),
              {"engine": "netw", "test": "TestC10SlowStore", "quick": {"shards": 4, "checks": 20, "timeout": 400, "shrinktime": "10s"}, "thorough": {"shards": 8, "checks": 400, "timeout": 3400, "shrinktime": "30s"}},
-             {"engine": "netw", "test": "TestC10StoreOpen", "quick": {"shards": 4, "checks": 30, "timeout": 400, "shrinktime": "10s"}, "thorough": {"shards": 8, "checks": 600, "timeout": 3400, "shrinktime": "30s"}}],
+             {"engine": "netw", "test": "TestC10StoreOpen", "quick": {"shards": 4, "checks": 30, "timeout": 400, "shrinktime": "10s"}, "thorough": {"shards": 8, "checks": 600, "timeout": 3400, "shrinktime": "30s"}},
+             {"engine": "netw", "test": "TestC10Admin", "quick": {"shards": 8, "checks": 8, "timeout": 600, "shrinktime": "30s"}, "thorough": {"shards": 8, "checks": 200, "timeout": 3400, "shrinktime": "60s"}}],
 }
 PROPS["C18"] = {
     "level": "exploration",
@@ -292,6 +297,7 @@ PROPS["C16"] = {
     ],
 }
 
+_C08_SLOW = {"engine": "netw", "test": "TestC08SlowReload", "quick": {"shards": 4, "checks": 10, "timeout": 400, "shrinktime": "10s"}, "thorough": {"shards": 8, "checks": 200, "timeout": 3400, "shrinktime": "30s"}}
 PROPS["C08"] = {
     "level": "fault_enumeration",
     "rule": ("TestC08 (real binary, badger store in a temp dir, LRU of 8 entries, 20-40 keys with lifetimes {uncacheable,2,3,4,6,8,30}s, bodies 10/200/3000 bytes, plain or gzip clients): op sequences of single GETs, concurrent bursts over many keys (evict/reload), "
@@ -299,11 +305,13 @@ PROPS["C08"] = {
              "History oracle: a response that did not reach the upstream must be labelled hit, carry the serial (stored header) of a real fetch of the same key, an unaltered body, start less than T+1 s after the latest moment the entry can have been created "
              "(min(fetching client's completion, kill of that instance)), an Age within the measured bounds (continuing across restarts), never for uncacheable keys, never from a fetch completed before a purge; pike must serve within 12 s after every restart. evaluations = client responses judged. "
              "TestC08Sim (bubble, memory store honouring TTL on the virtual clock, LRU 8/16, 10-30 keys forced into 4 shards): evict/reload histories at exact expiry boundaries against the automaton (reload allowed only unchanged, within the original lifetime, Age continuing). "
+             "TestC08SlowReload (engine N): the histories of TestC10SlowStore judged for C08 -- a persisted hit or hit-for-pass record that left the one-entry memory is asked for by 2-5 staggered concurrent requests while every store call takes 20-80 ms: each request gets the response (or a refetched one), never an error. "
              "Non-trivial = a hit served from a fetch made by an earlier (killed) instance AND a refetch after expiry (TestC08) / a reload hit (TestC08Sim)."),
     "assumptions": _PROC_ASSUME + _SIM_ASSUME[:1] + ["kill points are sampled in real time (op boundaries and random offsets into bursts), not enumerated at instruction granularity; an OS crash (loss of the page cache) is out of reach"],
     "jobs": [
         {"engine": "proc", "needs_pike": True, "test": "TestC08", "env": {"VERIF_PORT_BASE": "2000", "VERIF_PORT_SPAN": "400"},
          "quick": {"shards": 16, "checks": 2, "timeout": 600, "shrinktime": "45s"}, "thorough": {"shards": 16, "checks": 40, "timeout": 3400, "shrinktime": "180s"}},
         _sim("TestC08Sim", 600, 20000),
+        _C08_SLOW,
     ],
 }
